@@ -13,6 +13,15 @@ fn opt(v: Option<u64>) -> i64 {
     }
 }
 
+/// k as a number, or as a decimal string when it does not fit the 31-bit integers of the trace
+fn k_json(k: usize) -> Value {
+    if k < (1 << 30) {
+        json!(k)
+    } else {
+        json!(k.to_string())
+    }
+}
+
 fn bits_json(b: &[bool]) -> Value {
     Value::Array(b.iter().map(|&x| json!(x as u8)).collect())
 }
@@ -82,11 +91,17 @@ fn run_one(log: &mut Log, tag: &str, bits: &[bool], k: usize, ctor: u32, via: u3
     // which query kinds stay with the original when a copy exists (one run in four: none)
     let mask: u32 = if (bits.len() + k) % 4 == 0 { 0 } else { ((bits.len() * 7 + k * 3 + ctor as usize) % 31) as u32 };
     let n = bits.len();
-    if !log.begin(tag, json!({"n": n, "k": k, "ctor": ctor, "via": via, "bits": bits_json(bits)})) {
+    if !log.begin(tag, json!({"n": n, "k": k_json(k), "ctor": ctor, "via": via, "bits": bits_json(bits)})) {
         return;
     }
     // driver-side coverage counters (which boundary regions did the inputs reach)
-    let s = 32 * k;
+    let s = k.saturating_mul(32);
+    if k >= usize::MAX / 32 - 1 {
+        log.oblige("largest_legal_superblock_factor");
+    }
+    if k >= 1 << 32 {
+        log.oblige("superblock_factor_beyond_2p32");
+    }
     if n % s == 0 {
         log.oblige("n_multiple_of_superblock");
     }
@@ -97,7 +112,7 @@ fn run_one(log: &mut Log, tag: &str, bits: &[bool], k: usize, ctor: u32, via: u3
         // select_0(total zeros + 1) then reaches the bit scan of the padded byte
         log.oblige("padded_last_byte");
     }
-    if n > 2 * s {
+    if n > s.saturating_mul(2) {
         log.oblige("three_or_more_superblocks");
     }
     if bits.iter().all(|&b| !b) {
@@ -192,7 +207,7 @@ fn run_one(log: &mut Log, tag: &str, bits: &[bool], k: usize, ctor: u32, via: u3
         3 => {
             log.call("clone_from", json!({}), || {
                 let other: Vec<bool> = (0..(n * 2 + 13)).map(|i| i % 3 == 0).collect();
-                let mut used = RankSelect::new(build(&other, 0), k + 1);
+                let mut used = RankSelect::new(build(&other, 0), k / 2 + 1);
                 let _ = used.select_1(2);
                 let _ = used.rank_0(5);
                 used.clone_from(&orig);
@@ -252,7 +267,7 @@ fn fill(rng: &mut Rng, n: usize, s: usize, which: u64) -> Vec<bool> {
         1 => b.iter_mut().for_each(|x| *x = true), // all one
         2 | 3 => {
             // a single 1 (2) / a single 0 (3) at a boundary position
-            let cands = [0, n - 1, s.saturating_sub(1), s, 2 * s - 1, 2 * s, n.saturating_sub(2), n / 8 * 8, (n / 8 * 8).saturating_sub(1), 7, 8];
+            let cands = [0, n - 1, s.saturating_sub(1), s, s.saturating_mul(2).saturating_sub(1), s.saturating_mul(2), n.saturating_sub(2), n / 8 * 8, (n / 8 * 8).saturating_sub(1), 7, 8];
             let mut p = *rng.pick(&cands);
             if p >= n {
                 p = n - 1;
@@ -348,6 +363,20 @@ pub fn drive(log: &mut Log) {
             }
         }
     }
+    // (d) the largest legal superblock factors (k * 32 must fit usize) and other values beyond 2^32, on small
+    //     vectors: one superblock; every query as usual (the definition does not depend on k)
+    for &k in &[usize::MAX / 32, usize::MAX / 32 - 1, 1usize << 58, 1usize << 40, (1usize << 32) + 1] {
+        for &n in &[1usize, 8, 32, 33, 64, 100] {
+            case += 1;
+            if !log.mine(case) {
+                continue;
+            }
+            let mut rng = Rng::new(seed, 20, case);
+            let bits = fill(&mut rng, n, 32, [4, 1, 0, 7, 6][(case % 5) as usize]);
+            run_one(log, "hk", &bits, k, (case % 5) as u32, (case / 5 % 4) as u32);
+        }
+    }
+
     // (c) k larger than the vector, and a few long random vectors
     for &(n, k) in &[(1usize, 5usize), (9, 4), (40, 2), (64, 3), (200, 7), (1000, 1), (1500, 5), (330, 1), (645, 2), (384, 1)] {
         for rep in 0..4u64 {
